@@ -26,13 +26,15 @@ fn sizes(tier: Tier) -> Vec<usize> {
 }
 
 /// All (w,h) pairs: the full square of `sizes` plus a few long/large shapes (row lengths around
-/// 128 and 256, tall single-column images) that exercise strides beyond one alignment unit.
+/// 128 and 256, tall single-column images) that exercise strides beyond one alignment unit, shapes
+/// whose pixel count lies just above 4096 / 16384 / 65536 with a row count per such band that is odd
+/// (37x116 ... 140x472), and one frame above 2^32 / width^2 rows (2561x1441, 4:4:4 only).
 fn size_pairs(tier: Tier) -> Vec<(usize, usize)> {
     let sz = sizes(tier);
     let mut v: Vec<(usize, usize)> = sz.iter().flat_map(|&w| sz.iter().map(move |&h| (w, h))).collect();
     let extra: &[(usize, usize)] = match tier {
-        Tier::Quick => &[(128, 2), (2, 128), (257, 1), (1, 257), (132, 4), (65, 3), (129, 2), (96, 80), (1280, 54), (65, 64), (100, 41)],
-        Tier::Thorough => &[(127, 2), (128, 2), (129, 2), (2, 127), (2, 128), (2, 129), (255, 4), (256, 4), (257, 1), (1, 257), (4, 256), (132, 4), (320, 8), (8, 320), (100, 100), (65, 3), (129, 2), (96, 80), (192, 6), (260, 12), (512, 2), (1280, 54), (720, 92), (300, 220), (513, 513), (65, 64), (100, 41)],
+        Tier::Quick => &[(128, 2), (2, 128), (257, 1), (1, 257), (132, 4), (65, 3), (129, 2), (96, 80), (1280, 54), (65, 64), (100, 41), (37, 116), (140, 32), (140, 120), (322, 56), (322, 208), (140, 472), (2561, 1441)],
+        Tier::Thorough => &[(127, 2), (128, 2), (129, 2), (2, 127), (2, 128), (2, 129), (255, 4), (256, 4), (257, 1), (1, 257), (4, 256), (132, 4), (320, 8), (8, 320), (100, 100), (65, 3), (129, 2), (96, 80), (192, 6), (260, 12), (512, 2), (1280, 54), (720, 92), (300, 220), (513, 513), (65, 64), (100, 41), (37, 116), (140, 32), (140, 120), (322, 56), (322, 208), (140, 472), (2561, 1441)],
     };
     v.extend_from_slice(extra);
     v
@@ -238,6 +240,35 @@ fn check_decode_inner<T: Pixel>(acc: &mut Acc, idx: u64, tier: Tier, c: &DecCase
                 }
             }
         }
+        // the luma plane's own decimation fields are layout too: the constructor does not look at
+        // them (only the chroma planes' decimation is compared with the subsampling), so a frame whose
+        // luma plane says "decimated" - what v_frame's Plane::downsampled() produces - holds the same
+        // samples and must decode the same
+        for ldec in [(1usize, 1usize), (1, 0)] {
+            let mut other = build_yuv::<T>(c.w, c.h, cfg, (1, 1), max / 3);
+            let mut planes = [other.data()[0].clone(), other.data()[1].clone(), other.data()[2].clone()];
+            planes[0].cfg.xdec = ldec.0;
+            planes[0].cfg.ydec = ldec.1;
+            match Yuv::<T>::new(Frame { planes }, cfg) {
+                Ok(y) => other = y,
+                Err(_) => {
+                    acc.bucket("frame with a decimated-labelled luma plane rejected by the constructor (nothing to compare)", 1);
+                    continue;
+                }
+            }
+            acc.transitions += 1;
+            match from_yuv(t, &other, false) {
+                Ok(o) if o.0 == out => {}
+                Ok(_) => {
+                    fail(acc, format!("layout-dependent target={t:?}"), format!("same samples in a luma plane labelled with decimation {ldec:?} convert differently"));
+                    return;
+                }
+                Err(e) => {
+                    fail(acc, format!("conversion-failed target={t:?} {}", panic_site(&e)), format!("luma decimation label {ldec:?}: {e}"));
+                    return;
+                }
+            }
+        }
         acc.bucket(&format!("decode to {t:?}: pointwise, repeatable, layout-independent, source untouched"), 1);
     }
 }
@@ -391,6 +422,148 @@ fn check_float(acc: &mut Acc, idx: u64, w: usize, h: usize, op: &str) {
         }
     }
     acc.bucket("float conversion: pointwise, order-preserving, repeatable", 1);
+}
+
+/// Every pixel count: an image of `len` pixels (as one row and as one column) whose content cycles
+/// through 64 pixels must convert, pixel for pixel, like those 64 pixels converted alone. Blocked,
+/// banded and unrolled loops meet every remainder of every block size up to the sweep's end.
+const SWEEP_END: usize = 8192;
+
+fn float_length_sweep(acc: &mut Acc, idx: u64, op: &str, lo: usize, hi: usize) {
+    let pal: Vec<[f32; 3]> = (0..64).map(|i| { let p = fcontent(3 * i + 1); if op == "HslToLin" { [p[0] * 359.0, p[1], p[2]] } else { p } }).collect();
+    let want: Vec<[u32; 3]> = pal.iter().map(|p| fconv(op, vec![*p], 1, 1).map(|o| o.0[0]).unwrap_or([0xDEAD_BEEF; 3])).collect();
+    for len in lo..hi {
+        for (w, h) in [(len, 1usize), (1usize, len)] {
+            if len == 1 && h == 1 && w == 1 && (w, h) == (1, len) && w != len {
+                continue;
+            }
+            acc.transitions += 1;
+            let data: Vec<[f32; 3]> = (0..len).map(|i| pal[i % 64]).collect();
+            match fconv(op, data, w, h) {
+                Ok((out, ow, oh)) => {
+                    let bad = if ow != w || oh != h || out.len() != len { Some(usize::MAX) } else { (0..len).find(|&i| out[i] != want[i % 64]) };
+                    if let Some(i) = bad {
+                        acc.violation(
+                            idx,
+                            format!("not-pointwise op={op} (depends on the pixel count)"),
+                            if i == usize::MAX { format!("{w}x{h}: dimensions or length changed ({ow}x{oh}, {} pixels)", out.len()) } else { format!("{w}x{h}: output pixel {i} = {:?}, the same pixel converted alone gives {:?}", out[i].map(f32::from_bits), want[i % 64].map(f32::from_bits)) },
+                            json!({"kind":"c11floatlen","op":op,"len":len}),
+                        );
+                        return;
+                    }
+                }
+                Err(e) => {
+                    acc.violation(idx, format!("conversion-failed op={op} {}", panic_site(&e)), format!("{w}x{h}: {e}"), json!({"kind":"c11floatlen","op":op,"len":len}));
+                    return;
+                }
+            }
+        }
+    }
+    acc.states += (hi - lo) as u64;
+    acc.bucket("float conversion: every pixel count of the sweep converts pointwise", (hi - lo) as u64);
+}
+
+// ---- provenance independence --------------------------------------------------------------------
+//
+// An image is its content and labels, however it came about: the result of a conversion must convert
+// on exactly like an image constructed from the same data (a flag a conversion leaves in its result -
+// "already clamped", "known non-negative" - would show here).
+
+#[derive(Clone)]
+enum Img {
+    Rgb(Rgb),
+    Lin(LinearRgb),
+    Xyb(Xyb),
+    Hsl(Hsl),
+}
+
+impl Img {
+    fn rebuilt(&self) -> Img {
+        match self {
+            Img::Rgb(i) => Img::Rgb(Rgb::new(i.data().to_vec(), i.width(), i.height(), i.transfer(), i.primaries()).unwrap()),
+            Img::Lin(i) => Img::Lin(LinearRgb::new(i.data().to_vec(), i.width(), i.height()).unwrap()),
+            Img::Xyb(i) => Img::Xyb(Xyb::new(i.data().to_vec(), i.width(), i.height()).unwrap()),
+            Img::Hsl(i) => Img::Hsl(Hsl::new(i.data().to_vec(), i.width(), i.height()).unwrap()),
+        }
+    }
+    fn view(&self) -> (Vec<[u32; 3]>, usize, usize) {
+        match self {
+            Img::Rgb(i) => (bits(i.data()), i.width(), i.height()),
+            Img::Lin(i) => (bits(i.data()), i.width(), i.height()),
+            Img::Xyb(i) => (bits(i.data()), i.width(), i.height()),
+            Img::Hsl(i) => (bits(i.data()), i.width(), i.height()),
+        }
+    }
+    fn kind(&self) -> &'static str {
+        match self {
+            Img::Rgb(_) => "Rgb",
+            Img::Lin(_) => "LinearRgb",
+            Img::Xyb(_) => "Xyb",
+            Img::Hsl(_) => "Hsl",
+        }
+    }
+    /// Every conversion the public API offers from this kind of image (by value).
+    fn convert(self, to: &str) -> Option<Result<Img, yuvxyb::ConversionError>> {
+        let (t, p) = (TC::BT470BG, CP::BT2020);
+        Some(match (self, to) {
+            (Img::Rgb(i), "LinearRgb") => LinearRgb::try_from(i).map(Img::Lin),
+            (Img::Rgb(i), "Xyb") => Xyb::try_from(i).map(Img::Xyb),
+            (Img::Lin(i), "Rgb") => Rgb::try_from((i, t, p)).map(Img::Rgb),
+            (Img::Lin(i), "Xyb") => Ok(Img::Xyb(Xyb::from(i))),
+            (Img::Lin(i), "Hsl") => Ok(Img::Hsl(Hsl::from(i))),
+            (Img::Xyb(i), "LinearRgb") => Ok(Img::Lin(LinearRgb::from(i))),
+            (Img::Xyb(i), "Rgb") => Rgb::try_from((i, t, p)).map(Img::Rgb),
+            (Img::Hsl(i), "LinearRgb") => Ok(Img::Lin(LinearRgb::from(i))),
+            _ => return None,
+        })
+    }
+}
+
+const KINDS: [&str; 4] = ["Rgb", "LinearRgb", "Xyb", "Hsl"];
+
+fn check_provenance(acc: &mut Acc, idx: u64) {
+    // content: in-range, negative, above one, special - so that a remembered predicate has something to be wrong about
+    let contents: [Vec<[f32; 3]>; 3] = [
+        (0..12).map(fcontent).collect(),
+        (0..12).map(|i| { let p = fcontent(i); [p[0] - 0.6, p[1] * 1.8, p[2] - 0.3] }).collect(),
+        (0..12).map(|i| { let p = fcontent(i); if i % 4 == 1 { [f32::NAN, -p[1], f32::INFINITY] } else { [p[0] * 400.0, p[1], p[2]] } }).collect(),
+    ];
+    for (ci, data) in contents.iter().enumerate() {
+        for (w, h) in [(4usize, 3usize), (12, 1)] {
+            let starts = [
+                Img::Rgb(Rgb::new(data.clone(), w, h, TC::SRGB, CP::BT709).unwrap()),
+                Img::Lin(LinearRgb::new(data.clone(), w, h).unwrap()),
+                Img::Xyb(Xyb::new(data.clone(), w, h).unwrap()),
+                Img::Hsl(Hsl::new(data.clone(), w, h).unwrap()),
+            ];
+            for start in starts {
+                for mid in KINDS {
+                    let case = || json!({"kind":"c11prov"});
+                    let Ok(Some(Ok(m))) = guarded(|| start.clone().convert(mid)) else { continue };
+                    for dst in KINDS {
+                        let r = guarded(|| (m.clone().convert(dst).map(|r| r.map(|i| i.view()).map_err(|e| format!("{e:?}"))), m.rebuilt().convert(dst).map(|r| r.map(|i| i.view()).map_err(|e| format!("{e:?}")))));
+                        acc.transitions += 2;
+                        match r {
+                            Ok((a, b)) if a == b => {
+                                if a.is_some() {
+                                    acc.bucket("provenance: a conversion's result converts on like an image constructed from its data", 1);
+                                }
+                            }
+                            Ok(_) => {
+                                acc.violation(idx, format!("depends-on-provenance conv={}->{}", m.kind(), dst), format!("content {ci}, {w}x{h}: the {} image returned by {} -> {} converts to {dst} differently from a {} image constructed from the same data", m.kind(), start.kind(), m.kind(), m.kind()), case());
+                                return;
+                            }
+                            Err(p) => {
+                                acc.violation(idx, format!("conversion-failed chain {}", panic_site(&p)), format!("{} -> {} -> {dst}: {p}", start.kind(), m.kind()), case());
+                                return;
+                            }
+                        }
+                    }
+                }
+            }
+        }
+    }
+    acc.states += 1;
 }
 
 // ---- encode to (subsampled) YUV -----------------------------------------------------------------
@@ -609,10 +782,12 @@ fn hist_ops(tier: Tier) -> Vec<HOp> {
         for &m2 in ALL_MATRICES.iter().filter(|x| **x != MC::Unspecified && **x != MC::Reserved) {
             metas.push((m2, p, t, false, false));
         }
-        for &p2 in ALL_PRIMARIES.iter().filter(|x| **x != CP::Unspecified && **x != CP::Reserved && **x != CP::Reserved0) {
+        // unsupported values stay in: a rejected call is a call too (an error path that leaves a
+        // half-updated cache behind shows in the next successful call)
+        for &p2 in ALL_PRIMARIES.iter().filter(|x| **x != CP::Unspecified) {
             metas.push((m, p2, t, false, false));
         }
-        for &t2 in crate::refmodel::SUPPORTED_TRANSFERS.iter() {
+        for &t2 in ALL_TRANSFERS.iter().filter(|x| **x != TC::Unspecified) {
             metas.push((m, p, t2, false, false));
         }
         metas.push((m, p, t, true, false));
@@ -1095,10 +1270,24 @@ fn dec_cases(tier: Tier) -> Vec<DecCase> {
                         if tier == Tier::Quick && k != ((w + h) % 4) as u8 && k != ((w + h + 2 * (ss.0 as usize)) % 4 + 1) as u8 % 4 {
                             continue;
                         }
+                        // the multi-megapixel frame: one storage type, one metadata set (quick: u8)
+                        if w * h > 1_000_000 && (k != ((w + h) % 4) as u8 || (tier == Tier::Quick && wide)) {
+                            continue;
+                        }
                         v.push(DecCase { w, h, ss, wide, k, mode: 0 });
                     }
                 }
             }
+        }
+    }
+    // every width 65..=2050 on two rows: strip, block and tail logic of the row loops meets every
+    // remainder (4:4:4, 4:2:0 and 4:1:1; the metadata sets rotate)
+    for w in 65..=2050usize {
+        for ss in [(0u8, 0u8), (1, 1), (2, 0)] {
+            if w % (1 << ss.0) != 0 {
+                continue;
+            }
+            v.push(DecCase { w, h: 2, ss, wide: w % 2 == 0, k: (w % 4) as u8, mode: 0 });
         }
     }
     // structured content (flat rows, flat columns, one solid colour) on a covering set of sizes:
@@ -1218,6 +1407,20 @@ pub fn run(tier: Tier) -> Report {
         }
     });
     rep.acc.merge(acc);
+    {
+        let mut acc = Acc::default();
+        check_provenance(&mut acc, base);
+        rep.acc.merge(acc);
+    }
+    {
+        // every pixel count 1..=SWEEP_END for every float conversion, in chunks of 128 lengths
+        let per = (SWEEP_END as u64 + 127) / 128;
+        let acc = par_chunks(FOPS.len() as u64 * per, 1, |acc, lo, _| {
+            let (op, c) = (FOPS[(lo / per) as usize], (lo % per) as usize);
+            float_length_sweep(acc, base + lo, op, 1 + c * 128, (1 + (c + 1) * 128).min(SWEEP_END + 1));
+        });
+        rep.acc.merge(acc);
+    }
     let base = base + fc.len() as u64;
     let ec = enc_cases(tier);
     let acc = par_chunks(ec.len() as u64, 8, |acc, lo, hi| {
@@ -1247,6 +1450,8 @@ pub fn run(tier: Tier) -> Report {
     rep.guard_bucket("decode to Rgb: pointwise, repeatable, layout-independent, source untouched");
     rep.guard_bucket("decode to Xyb: pointwise, repeatable, layout-independent, source untouched");
     rep.guard_bucket("float conversion: pointwise, order-preserving, repeatable");
+    rep.guard_bucket("float conversion: every pixel count of the sweep converts pointwise");
+    rep.guard_bucket("provenance: a conversion's result converts on like an image constructed from its data");
     rep.guard_bucket("encode: luma = 4:4:4 luma, chroma from own block, plane sizes right, repeatable");
     let _ = Plane::<u8>::new;
     rep
@@ -1267,6 +1472,8 @@ pub fn replay(case: &Value) -> (bool, String) {
             }
         }
         "c11float" => check_float(&mut acc, 0, g("w"), g("h"), case["op"].as_str().unwrap()),
+        "c11prov" => check_provenance(&mut acc, 0),
+        "c11floatlen" => float_length_sweep(&mut acc, 0, case["op"].as_str().unwrap(), g("len"), g("len") + 1),
         "c11hist" => return replay_history(case),
         "c11conc" => return replay_concurrent(case),
         "c11histproc" => return replay_history_process(case),
